@@ -69,7 +69,7 @@ fixed('F2', 'C03', ['C03.hang', 'C03.descendant_incomplete'], '95060a3', 'recurs
 fixed('F2b', 'C04', ['C04.raised', 'C04.hang'], '95060a3', 'recursion guard error escaped from an in-handler await', 'findings/F2_C04.json')
 fixed('F2c', 'C15', ['C15.hang'], '95060a3', 'event refused by the recursion guard stayed pending in history: wait_until_idle never returned', 'findings/F2_C15.json')
 fixed('F25', 'C15', ['C15.hang'], 'dda422b', 'the queue getter of a cancelled run loop stayed registered and swallowed the first event dispatched after the run loop had been restarted: the event was never processed and wait_until_idle never returned')
-known('F28', 'C15', ['C15.late_return'], 'a handler times out while its polling loop is processing another bus\'s event inline: the interrupted processing completes that event, but the loop leaves by the exception without raising that bus\'s idle flag, and the bus\'s run loop is blocked behind the global lock - wait_until_idle() of the idle bus returns only when the lock holder finishes its next inline processing or its own event')
+fixed('F28', 'C15', ['C15.late_return'], 'c5c063c', 'a handler times out while its polling loop is processing another bus\'s event inline: the interrupted processing completes that event, but the loop leaves by the exception without raising that bus\'s idle flag, and the bus\'s run loop is blocked behind the global lock - wait_until_idle() of the idle bus returned only when the lock holder finishes its next inline processing or its own event')
 fixed('F26', 'C15', ['C15.late_return'], '3f849a1', 'a bus whose last unfinished events were finished inline on another bus was not told it was idle while its run loop was blocked behind the global lock: wait_until_idle returned only when the lock holder had finished')
 fixed('F17', 'C15', ['C15.not_idle_at_return'], '67ce4a2', 'wait_until_idle returned with a forwarded event still queued')
 fixed('F18', 'C09', ['C09.children_attribution'], 'f319433', 'child dispatched to two buses by one handler was listed twice in event_children')
